@@ -868,9 +868,12 @@ class Evaluator:
         callterm = App("call", [Ref("func", fi)] + ([selfarg] if selfarg is not None else []) + list(args)
                        + self.kwterms(kwargs) + ([App("starkw", (starkw,))] if starkw is not None else []), e)
         self.record_call(callterm, st)
-        if fr.depth >= self.inline_depth or (self.inline_filter is not None and not self.inline_filter(fi)):
-            return callterm
-        if "abstractmethod" in fi.decorators:
+        if fr.depth >= self.inline_depth or (self.inline_filter is not None and not self.inline_filter(fi)) \
+                or "abstractmethod" in fi.decorators:
+            # the callee is not evaluated: forget what is known about the fields of its receiver
+            if selfarg is not None:
+                for k in [k for k in st.heap if k[0] == selfarg]:
+                    del st.heap[k]
             return callterm
         binding = self.bind_params(fi, selfarg, args, kwargs, starkw, unbound=unbound)
         if binding is None:
